@@ -71,7 +71,13 @@ def plan(tier, seed):
             dt = area / (gmax * 2e6)
             if dt > 1e-4:
                 continue
-        P.add("trap", fn=fn, area=area, gmax=gmax, dgdt=dgdt, dt=dt, mode=mode)
+        P.add("trap", fn=fn, area=area, gmax=gmax, dgdt=dgdt, dt=dt, mode=mode,
+              argtype=pick(rng, ["py", "py", "py", "np", "np32"]))
+    # integer-typed arguments (valid numbers): whole-number limits and areas
+    for i in range(40 if quick else 400):
+        P.add("trap", fn=pick(rng, ["trap_grad", "min_trap_grad"]), area=int(pick(rng, [1, 1, 2])),
+              gmax=int(rng.integers(1, 11)), dgdt=int(pick(rng, [100, 1000, 20000, 100000])),
+              dt=float(pick(rng, [1e-5, 4e-5, 1e-4])), mode="int-args", argtype="py")
     # directed: increments certain to need a blip longer than the sub-pulse (the known
     # finding's mechanism, so its KNOWN-FINDING line is printed on every run) and small ones
     for kk in ([[0.0, 0.0], [20.0, 0.0]], [[15.0, -15.0], [-15.0, 15.0], [0.0, 25.0]],
@@ -116,8 +122,14 @@ def run_trap(case):
                              "g%d" % int(np.log10(gmax)), "s%d" % int(np.log10(dgdt)),
                              "t%d" % int(np.log10(dt))]))
     wit = dict(case)
+    args = (area, gmax, dgdt, dt)
+    if case.get("argtype") == "np":
+        args = tuple(np.float64(v) for v in args)
+    elif case.get("argtype") == "np32":
+        args = (np.float64(area), np.float32(gmax), np.float32(dgdt), np.float64(dt))
+        gmax, dgdt = float(np.float32(gmax)), float(np.float32(dgdt))
     try:
-        g, ramppts = getattr(T, fn)(area, gmax, dgdt, dt)
+        g, ramppts = getattr(T, fn)(*args)
     except Exception as e:
         return violated(sig, "%s(%.6g, %.6g, %.6g, %.6g) raised %s: %s" % (
             fn, area, gmax, dgdt, dt, type(e).__name__, str(e)[:150]), wit,
